@@ -259,7 +259,7 @@ def inject_map(v, case, env, exp_calls, fname, ext_idx, term, spec, mode, scratc
 
 
 def run_map_case(v, desc, scratch):
-    case = mapgen.case_from_seed(desc["seed"], desc["i"], max_funcs=3, allow_bound=True, allow_renames=desc["i"] % 2 == 0)
+    case = mapgen.case_from_seed(desc["seed"], desc["i"], max_funcs=3, allow_bound=True, allow_renames=desc["i"] % 2 == 0, allow_picker=desc["i"] % 3 == 1)
     env, exp_calls = mapgen.oracle(case)
     if any(f.get("bound") for f in case["funcs"]):
         v.count("map_cases_with_bound_values")
